@@ -271,4 +271,49 @@ theorem parsePipelineK_erase (env : Env P O T V) (vac : P → Bool) (p : Pipelin
       have hb := ihb h.2 x (parsePipeline env a.erase v pin).isPtr
       simp [hb.1, hb.2.1, hb.2.2]
 
+/-- With every value of the right type for every base, `parsePipelineT` is `parsePipelineK`. -/
+theorem parsePipelineT_typed (env : Env P O T V) (vac : P → Bool) (ty : Nat → V → Bool)
+    (hty : ∀ tag v, ty tag v = true) (p : PipelineK P O T) : ∀ (v : V) (pin : Bool),
+      (parsePipelineT env vac ty p v pin).out = (parsePipelineK env vac p v pin).out ∧
+      (parsePipelineT env vac ty p v pin).isPtr = (parsePipelineK env vac p v pin).isPtr ∧
+      (parsePipelineT env vac ty p v pin).log = (parsePipelineK env vac p v pin).log := by
+  induction p with
+  | base tag ps c cs => intro v pin; simp [parsePipelineT, parsePipelineK, hty]
+  | transform s i t ih =>
+    intro v pin
+    have := ih v pin
+    simp only [parsePipelineT, parsePipelineK]
+    rw [this.1, this.2.2]
+    cases (parsePipelineK env vac s v pin).out <;> simp
+  | pipe a b iha ihb =>
+    intro v pin
+    have ha := iha v pin
+    simp only [parsePipelineT, parsePipelineK]
+    rw [ha.1, ha.2.1, ha.2.2]
+    cases hx : (parsePipelineK env vac a v pin).out with
+    | error e => simp
+    | ok x =>
+      have hb := ihb x (parsePipelineK env vac a v pin).isPtr
+      simp [hb.1, hb.2.1, hb.2.2]
+
+/-- **A Pipe hands the first schema's result to the second and succeeds exactly when both do** — with
+    the second schema's type dispatch included: a result the target does not take as a value of its
+    type (nil, another kind) fails the pipe. -/
+theorem c10_pipeT_ok_iff (env : Env P O T V) (vac : P → Bool) (ty : Nat → V → Bool)
+    (a b : PipelineK P O T) (v : V) (pin : Bool) (y : V) :
+    (parsePipelineT env vac ty (.pipe a b) v pin).out = .ok y ↔
+      ∃ x, (parsePipelineT env vac ty a v pin).out = .ok x ∧
+           (parsePipelineT env vac ty b x (parsePipelineT env vac ty a v pin).isPtr).out = .ok y := by
+  simp only [parsePipelineT]
+  cases h : (parsePipelineT env vac ty a v pin).out with
+  | error e => simp
+  | ok x => simp
+
+/-- A base schema never accepts a value that is not of its type, and runs none of its checks on it. -/
+theorem c10_base_type_error (env : Env P O T V) (vac : P → Bool) (ty : Nat → V → Bool)
+    (tag : Nat) (ps c : Bool) (cs : List (Check P O)) (v : V) (pin : Bool) (h : ty tag v = false) :
+    (parsePipelineT env vac ty (.base tag ps c cs) v pin).out = .error (typeErrTag, [0]) ∧
+    (parsePipelineT env vac ty (.base tag ps c cs) v pin).log = [] := by
+  simp [parsePipelineT, h]
+
 end Gozod.C10
